@@ -302,6 +302,11 @@ def l3_run(carve):
                     (f"row_number(partition_by={lname} column, arrange=h)", lambda mklit=mklit: t >> pdt.mutate(k=mklit()) >> pdt.mutate(r=pdt.row_number(partition_by=pdt.C.k, arrange=t.h)) >> pdt.select(t.h, pdt.C.r), lambda out: sorted(out.rows()) == [(h, h + 1) for h in range(7)]),
                     (f"filter(s == {lname} column)", lambda mklit=mklit: t >> pdt.mutate(k=mklit()) >> pdt.filter(pdt.C.k.cast(pdt.String()) == t.s) >> pdt.select(t.h), lambda out, val=val: sorted(out["h"].to_list()) == [h for h, v in enumerate(sv) if v == str(val)]),
                 ]
+            cases += [
+                ("arrange(lit(1), h.descending())  [a literal as sort key]", lambda: t >> pdt.arrange(pdt.lit(1), t.h.descending()) >> pdt.select(t.h), lambda out: out["h"].to_list() == list(range(6, -1, -1))),
+                ("row_number(arrange=lit('x')) / shift(1, arrange=[lit(2), h])", lambda: t >> pdt.mutate(r=pdt.row_number(arrange=pdt.lit("x")), sh=t.h.shift(1, arrange=[pdt.lit(2), t.h])) >> pdt.select(t.h, pdt.C.r, pdt.C.sh),
+                 lambda out: sorted(out["r"].to_list()) == list(range(1, 8)) and sorted(out.select("h", "sh").rows()) == [(h, (h - 1 if h else None)) for h in range(7)]),
+            ]
             # sort keys / partitions that differ ONLY in a literal are different keys
             k1 = lambda: (t.s != "it's")  # noqa: E731
             k2 = lambda: (t.s != "a%b")  # noqa: E731
@@ -364,6 +369,10 @@ def obligations(tier):
                 )
                 obs.append(Obligation(f"C18/LIB/{kind}/{backend}/{lit!r}", "LIB", f"{kind} with the literal {lit!r} on {backend}: the specification agrees with the real engine on sampled values", make_lib(kind, lit, lit2, backend), functions=fns,
                                       bounded="10 sampled column values per literal (null, the literal itself, embedded, doubled, reversed, unrelated); native execution", carveouts={"regex_meta_pattern": "pattern contains regex metacharacters", "whole": "whole obligation"}))
+    from . import c06
+
+    obs.append(Obligation("C18/L5/literal_defaults_below_outer_joins", "L5", "computed columns with literal defaults (fill_null(0), when(..).then(-1), constants) on the null-extended side of outer joins: the literal's value does not change where it is evaluated (= C06/N5)", c06.n5_run,
+                          functions=[H.fn_info(H.pdt._internal.pipe.cache.null_for_null_input)], bounded="the C06/N5 join matrix (operand variants right_const / right_computed / left_computed / *_alias)"))
     obs.append(Obligation("C18/L4/str_join_delimiter", "L4", "the delimiter of str.join is a correctly quoted literal in the SQL text of every dialect, with and without arrange=", l4_run, functions=[H.fn_info(H.sqlite_backend.SqliteImpl.compile_ordered_aggregation)],
                           bounded="7 delimiters x ordered / unordered x 3 dialects (rendered text)", carveouts={"strjoin_ordered_sqlite": "':x' / '%' as delimiter of an ordered str.join on SQLite", "pyformat_literal": "'%(a)s' on the dialects with positional parameters"}))
     obs.append(Obligation("C18/L3/literal_valued_keys", "L3", "case / map / coalesce expressions with literal values used as keys (native, Python oracle)", l3_run,
